@@ -291,6 +291,10 @@ def orbit(f, a, limit=40):
         if matches(out[-1], nxt):
             return out
         out.append(nxt)
+        if len(out) > 4 and _has_reals(nxt):
+            # a real-valued orbit that closes in on its limit: when two successive results count as "the same" depends on a
+            # comparison tolerance the reference does not state - not judged
+            raise Undef()
     raise Undef()
 
 
@@ -452,10 +456,25 @@ def _has_char_atoms(c):
     return c[0] in 'cy'
 
 
+def _has_reals(c):
+    if c[0] == 'l':
+        return any(_has_reals(x) for x in c[1])
+    return c[0] == 'r'
+
+
+def _has_inner(c, pred, inside=False):
+    if c[0] == 'l':
+        return (inside and pred(c)) or any(_has_inner(x, pred, True) for x in c[1])
+    return inside and pred(c)
+
+
 def _opshape(c):
-    """operand class used in finding keys: the shape class, marked when the operand holds character or symbol atoms
-    (which klongpy represents as strings - the root cause of a whole family of differences)"""
-    return ('chars:' if _has_char_atoms(c) else '') + shape_class(c)
+    """operand class used in finding keys: the shape class, marked when the operand holds character or symbol atoms, strings
+    as members of a list (klongpy represents characters as strings - the root cause of a whole family of differences) or
+    empty lists as members (an array of shape (n,0) has no members)"""
+    marks = ('chars:' if _has_char_atoms(c) else '') + ('strs:' if _has_inner(c, lambda x: x[0] == 's') else '') + \
+        ('empties:' if _has_inner(c, lambda x: x[0] == 'l' and not x[1]) else '')
+    return marks + shape_class(c)
 
 
 def _show(w):
